@@ -429,7 +429,7 @@ type reFilter struct {
 	h    api.StreamReceiverFilterHandler
 }
 
-func (f *reFilter) OnDestroy()                                                  {}
+func (f *reFilter) OnDestroy()                                                {}
 func (f *reFilter) SetReceiveFilterHandler(h api.StreamReceiverFilterHandler) { f.h = h }
 func (f *reFilter) OnReceive(ctx context.Context, headers api.HeaderMap, buf api.IoBuffer, trailers api.HeaderMap) api.StreamFilterStatus {
 	v, ok := headers.Get(reHeader)
